@@ -108,12 +108,35 @@ func (win Window) SetStyle(col int, row int, style Style) {
 	if row < 0 || col < 0 {
 		return
 	}
+	if width := win.widthAt(col, row); width > 1 && col+width > win.Width {
+		// The wide character in this cell hangs over the right edge
+		// of the window: its style is also that of its other half,
+		// which is not this window's to change
+		return
+	}
 	switch win.Parent {
 	case nil:
 		win.Vx.screenNext.setStyle(col+win.Column, row+win.Row, style)
 	default:
 		win.Parent.SetStyle(col+win.Column, row+win.Row, style)
 	}
+}
+
+// widthAt returns the width of the character in the cell at col, row of the
+// Window, measured the same way render would
+func (win Window) widthAt(col int, row int) int {
+	ocol, orow := win.Origin()
+	cols, rows := win.Vx.screenNext.size()
+	col += ocol
+	row += orow
+	if col < 0 || row < 0 || col >= cols || row >= rows {
+		return 0
+	}
+	cell := win.Vx.screenNext.buf[row][col]
+	if cell.Width == 0 {
+		return win.Vx.characterWidth(cell.Grapheme)
+	}
+	return cell.Width
 }
 
 // ShowCursor shows the cursor at colxrow, relative to this Window's location
